@@ -165,6 +165,11 @@ def repair_missing(world, top, max_iter=8):
         todo = {}
         for (pn, ei, rel, line, sp, form) in ev["events"]:
             cands = sorted(p for p in world["files"] if p == sp or p.endswith("/" + sp))
+            # never name a directory twice (gcc ignores -I for a directory also given as -isystem)
+            e_cfg = refmodel.entry_config(W.concrete_entry(
+                next(p for p in world["platforms"] if p["name"] == pn)["entries"][ei], model.top), model.root)
+            have = {os.path.relpath(x, model.top) for x in e_cfg["search"]}
+            cands = [c for c in cands if c[: len(c) - len(sp)].rstrip("/") not in have]
             if not cands:
                 continue
             d = cands[0][: len(cands[0]) - len(sp)].rstrip("/")
